@@ -32,7 +32,7 @@ import (
 const policyDoc = `
 @id("p0") permit(principal in G::"g3", action, resource) when { principal.dept == "eng" && [1, 2, {k: context.n}].contains(context.n) };
 forbid(principal, action == Action::"delete", resource) unless { context has override && context.override.by in G::"g3" };
-permit(principal, action in [Action::"view", Action::"edit"], resource is Doc in Folder::"root") when { resource.owner == principal || principal.roles.containsAny(["admin", "owner"]) };
+permit(principal, action in [Action::"readWrite", Action::"view", Action::"other"], resource is Doc in Folder::"root") when { resource.owner == principal || principal.roles.containsAny(["admin", "owner"]) };
 permit(principal, action, resource) when { context.missing.deep };
 permit(principal, action, resource) when { decimal("1.5").lessThan(decimal("2.5")) && ip("10.0.0.1").isInRange(ip("10.0.0.0/8")) && context.n > 0 };
 forbid(principal, action, resource) when { principal.hasTag("blocked") && principal.getTag("blocked") == true };
@@ -43,7 +43,10 @@ entity G in [G];
 entity U in [G] { dept: String, roles: Set<String> } tags Bool;
 entity Folder in [Folder];
 entity Doc in [Folder] { owner: U };
-action view, edit, "delete" appliesTo { principal: U, resource: Doc, context: { n: Long, override?: { by: U } } };
+action readWrite;
+action other appliesTo { principal: U, resource: Doc, context: { n: Long, override?: { by: U } } };
+action view, edit in [readWrite] appliesTo { principal: U, resource: Doc, context: { n: Long, override?: { by: U } } };
+action "delete" appliesTo { principal: U, resource: Doc, context: { n: Long, override?: { by: U } } };
 `
 
 type shared struct {
